@@ -56,6 +56,13 @@ class State:
         self.found = False           # a concrete input on which the property fails was reported
         self.tie_broken = None
         self.sections = []
+        self.fall = {}               # Gallina function name -> returns `res _` (from the translator, current tree)
+
+    def rm(self, gname, eqb, call, impl_lit, code):
+        """boolean Gallina expression: generated function call agrees with the implementation's (value | exception code)"""
+        if self.fall.get(gname, True):
+            return 'res_matches %s (%s) %s %d' % (eqb, call, impl_lit, code)
+        return '(match %s with Some v_ => %s (%s) v_ | None => false end)' % (impl_lit, eqb, call)
 
     def bad(self, key, what, replay):
         # a violation that matches a known finding is reported as such and must not mask anything else
@@ -130,14 +137,14 @@ Definition chk_spec (c : list Z * list Z * option (list Z) * Z) : bool :=
     for _ in range(30 if quick else 300):
         d = rbytes(rng, rng.choice([0, 1, 16, 17, rng.randrange(0, 40)]))
         v, code = runf(Poly1305.le_bytes_to_num, bytearray(d))
-        hs.add('res_matches Z.eqb (poly_le_bytes_to_num %s) %s %d' % (blit(d), olit(v, zlit), code), {'fn': 'le_bytes_to_num', 'data': d.hex()})
+        hs.add(S.rm('poly_le_bytes_to_num', 'Z.eqb', 'poly_le_bytes_to_num %s' % blit(d), olit(v, zlit), code), {'fn': 'le_bytes_to_num', 'data': d.hex()})
         n = rng.choice([0, 1, 255, 256, 2**128 - 1, 2**128, 2**130 + 5, rng.getrandbits(rng.randrange(1, 140))])
         v, code = runf(lambda: bytes(Poly1305.num_to_16_le_bytes(n)))
-        hs.add('res_matches list_eqb (poly_num_to_16_le_bytes %s) %s %d' % (zlit(n), olit(v), code), {'fn': 'num_to_16_le_bytes', 'n': str(n)})
+        hs.add(S.rm('poly_num_to_16_le_bytes', 'list_eqb', 'poly_num_to_16_le_bytes %s' % zlit(n), olit(v), code), {'fn': 'num_to_16_le_bytes', 'n': str(n)})
     from tlslite.utils.cryptomath import divceil
     for a, b in [(0, 16), (1, 16), (15, 16), (16, 16), (17, 16), (0, 1), (5, 0), (33, 32), (255 * 32, 32), (-1, 16)]:
         v, code = runf(divceil, a, b)
-        hs.add('res_matches Z.eqb (divceil %s %s) %s %d' % (zlit(a), zlit(b), olit(v, zlit), code), {'fn': 'divceil', 'a': a, 'b': b})
+        hs.add(S.rm('divceil', 'Z.eqb', 'divceil %s %s' % (zlit(a), zlit(b)), olit(v, zlit), code), {'fn': 'divceil', 'a': a, 'b': b})
     S.sections.append(hs)
 
 
@@ -213,14 +220,14 @@ Definition olist_eqb := res_matches list_eqb.
             idx = (idx[0], idx[1], idx[2], rng.choice([16, -1, -16, -17, 20]))
         y = list(x)
         _, code = runf(ChaCha.quarter_round, y, *idx)
-        hs.add('olist_eqb (cha_quarter_round %s %s %s %s %s) %s %d' % ((wlit(x),) + tuple(zlit(i) for i in idx) + (olit(y if code == 0 else None, wlit), code)),
+        hs.add(S.rm('cha_quarter_round', 'list_eqb', 'cha_quarter_round %s %s %s %s %s' % ((wlit(x),) + tuple(zlit(i) for i in idx)), olit(y if code == 0 else None, wlit), code),
                {'fn': 'quarter_round', 'x': x, 'idx': idx})
         if code == 0 and all(0 <= i < 16 for i in idx):
             hs.add('list_eqb (quarterround %s %d %d %d %d) %s' % ((wlit(x),) + tuple(idx) + (wlit(y),)), {'fn': 'spec-quarterround', 'x': x, 'idx': idx})
         x = [w32() for _ in range(rng.choice([16, 16, 16, 15, 17]))]
         y = list(x)
         _, code = runf(ChaCha.double_round, y)
-        hs.add('olist_eqb (cha_double_round %s) %s %d' % (wlit(x), olit(y if code == 0 else None, wlit), code), {'fn': 'double_round', 'x': x})
+        hs.add(S.rm('cha_double_round', 'list_eqb', 'cha_double_round %s' % wlit(x), olit(y if code == 0 else None, wlit), code), {'fn': 'double_round', 'x': x})
         if len(x) == 16:
             hs.add('list_eqb (inner_block %s) %s' % (wlit(x), wlit(y)), {'fn': 'spec-inner_block', 'x': x})
         v, c = w32(), rng.choice([7, 8, 12, 16, 1, 31])
@@ -231,14 +238,14 @@ Definition olist_eqb := res_matches list_eqb.
         counter = rng.choice([0, 1, 2**32 - 1, 2**32, 2**32 + 5, rng.getrandbits(32)])
         rounds = rng.choice([20, 20, 20, 8, 12, 0, 1, 3])
         v, code = runf(ChaCha.chacha_block, key, counter, nonce, rounds)
-        hs.add('olist_eqb (cha_chacha_block %s %s %s %d) %s %d' % (wlit(key), zlit(counter), wlit(nonce), rounds, olit(v, wlit), code),
+        hs.add(S.rm('cha_chacha_block', 'list_eqb', 'cha_chacha_block %s %s %s %d' % (wlit(key), zlit(counter), wlit(nonce), rounds), olit(v, wlit), code),
                {'fn': 'chacha_block', 'key': key, 'counter': counter, 'nonce': nonce, 'rounds': rounds})
         st = [rng.choice([w32(), w32(), w32(), 2**32, -1]) if rng.random() < 0.05 else w32() for _ in range(rng.choice([16, 16, 16, 15, 17]))]
         v, code = runf(lambda: bytes(ChaCha.word_to_bytearray(st)))
-        hs.add('olist_eqb (cha_word_to_bytearray %s) %s %d' % (wlit(st), olit(v), code), {'fn': 'word_to_bytearray', 'st': st})
+        hs.add(S.rm('cha_word_to_bytearray', 'list_eqb', 'cha_word_to_bytearray %s' % wlit(st), olit(v), code), {'fn': 'word_to_bytearray', 'st': st})
         d = rbytes(rng, rng.choice([0, 4, 12, 32, 33, 35, 7]))
         v, code = runf(ChaCha._bytearray_to_words, bytearray(d))
-        hs.add('olist_eqb (cha_bytearray_to_words %s) %s %d' % (blit(d), olit(v, wlit), code), {'fn': '_bytearray_to_words', 'd': d.hex()})
+        hs.add(S.rm('cha_bytearray_to_words', 'list_eqb', 'cha_bytearray_to_words %s' % blit(d), olit(v, wlit), code), {'fn': '_bytearray_to_words', 'd': d.hex()})
     S.sections.append(hs)
 
 
@@ -355,7 +362,7 @@ Definition chk_spec (c : CT) : bool :=
     for n in list(range(0, 34)) + [63, 64, 65]:
         d = rbytes(rng, n)
         v, code = runf(lambda: bytes(CHACHA20_POLY1305.pad16(bytearray(d))))
-        hs.add('res_matches list_eqb (cp_pad16 %s) %s %d && list_eqb (pad16 %s) %s' % (blit(d), olit(v), code, blit(d), blit(v)), {'fn': 'pad16', 'n': n})
+        hs.add(S.rm('cp_pad16', 'list_eqb', 'cp_pad16 %s' % blit(d), olit(v), code) + ' && list_eqb (pad16 %s) %s' % (blit(d), blit(v)), {'fn': 'pad16', 'n': n})
     for kl, impl in ((32, 'python'), (31, 'python'), (33, 'python'), (32, 'openssl'), (0, 'python')):
         k = rbytes(rng, kl)
         v, code = runf(lambda: bytes(CHACHA20_POLY1305(bytearray(k), impl).key))
@@ -363,8 +370,8 @@ Definition chk_spec (c : CT) : bool :=
     for _ in range(4):
         k, n = rbytes(rng, 32), rbytes(rng, 12)
         v, code = runf(lambda: bytes(CHACHA20_POLY1305.poly1305_key_gen(bytearray(k), bytearray(n))))
-        hs.add('res_matches list_eqb (cp_poly1305_key_gen %s %s) %s %d && list_eqb (poly1305_key_gen %s %s) %s' % (
-            blit(k), blit(n), olit(v), code, blit(k), blit(n), blit(v)), {'fn': 'poly1305_key_gen'})
+        hs.add(S.rm('cp_poly1305_key_gen', 'list_eqb', 'cp_poly1305_key_gen %s %s' % (blit(k), blit(n)), olit(v), code) +
+               ' && list_eqb (poly1305_key_gen %s %s) %s' % (blit(k), blit(n), blit(v)), {'fn': 'poly1305_key_gen'})
     S.sections.append(sec)
     S.sections.append(hs)
 
@@ -1177,7 +1184,7 @@ Definition O1 (k e : list Z) : BlockOracle := table_block_oracle [(1 :: zlen k :
                 {'fn': 'gcm_mul', 'h': hex(h), 'y': hex(y)})
     for i in range(0, 18):
         v, code = runf(AESGCM._reverseBits, i)
-        hs.add('res_matches Z.eqb (gcm_reverseBits (O1 [] []) %d) %s %d' % (i, olit(v, zlit), code), {'fn': '_reverseBits', 'i': i})
+        hs.add(S.rm('gcm_reverseBits', 'Z.eqb', 'gcm_reverseBits (O1 [] []) %d' % i, olit(v, zlit), code), {'fn': '_reverseBits', 'i': i})
     for x in [0, 1, 2, 3, (1 << 128) - 1, 1 << 127, rng.getrandbits(128)]:
         hs.add('Z.eqb (gcm_gcmShift (O1 [] []) %d) %d' % (x, AESGCM._gcmShift(x)), {'fn': '_gcmShift', 'x': hex(x)})
     S.sections.append(sec)
@@ -1202,6 +1209,10 @@ def run(ctx):
         ctx.log('translator: %s' % msg)
         if not ok:
             S.tie_broken = S.tie_broken or msg
+    try:
+        S.fall = units_c09.fallibility(UNITS)
+    except Exception as e:      # noqa
+        ctx.log('fallibility query failed: %r' % (e,))
     res = vlib.proof_stage(ctx, 'Props/C09.v', model_targets=MODEL_TARGETS)
     if not res['ok']:
         # make -k goes on after the first error: name every file that no longer checks and the unit it is about
